@@ -3,6 +3,7 @@ package c19
 
 import (
 	"fmt"
+	"math"
 	"sort"
 	"strings"
 	"testing"
@@ -29,9 +30,9 @@ const (
 )
 
 type Op struct {
-	K int     `json:"k"` // kind
-	Q int     `json:"q"` // queue selector (mod number of live queues)
-	P float32 `json:"p"` // priority (push)
+	K int     `json:"k"`           // kind
+	Q int     `json:"q"`           // queue selector (mod number of live queues)
+	P float32 `json:"p"`           // priority (push)
 	N int     `json:"n,omitempty"` // bulk ops: how many
 }
 
@@ -91,7 +92,8 @@ func implKey(q utils.PriorityQueue) string {
 	return strings.Join(k, ",")
 }
 
-var prios = []float32{0, 0, 1, 1, 2, 3, 5, 8, 0.5, 2.5, 1e-30, 3.4e38}
+// (negative zero is a non-negative priority: it passes Push's `priority < 0` guard and ties with 0)
+var prios = []float32{0, 0, 1, 1, 2, 3, 5, 8, 0.5, 2.5, 1e-30, 3.4e38, float32(math.Copysign(0, -1)), float32(math.Copysign(0, -1))}
 
 func genCase(t *rapid.T) Case {
 	maxOps := pbt.Pick(40, 120)
